@@ -82,10 +82,17 @@ impl Bucket {
         // See if any lower priority nodes are present in the table, we cant do
         // nodes that have equal status because we have to prefer longer lasting
         // nodes in the case of a good status which helps with stability.
-        let replace_index = self
-            .nodes
-            .iter()
-            .position(|node| node.status() < new_node_status);
+        // Among those, take the one with the lowest status (the first such slot on ties) so
+        // that a live node is never evicted while a free or bad slot exists.
+        let mut replace_index = None;
+        let mut lowest_status = new_node_status;
+        for (index, node) in self.nodes.iter().enumerate() {
+            let status = node.status();
+            if status < lowest_status {
+                lowest_status = status;
+                replace_index = Some(index);
+            }
+        }
         if let Some(index) = replace_index {
             self.nodes[index] = new_node;
 
